@@ -84,6 +84,14 @@ type Conn struct {
 
 	Stats Stats
 
+	// Connection handlers of the service (set through the verif-tagged
+	// hook, as a *nats.Conn is given them through its setters). Like
+	// nats.go the connection calls them from a goroutine of its own, so a
+	// callback may run arbitrarily late.
+	onReconnect, onDisconnect, onClosed func()
+	// AsyncCallbacks counts the handler calls that were dispatched.
+	AsyncCallbacks int
+
 	// sendSeq orders the scheduler's channel sends before Close, as
 	// nats.Conn.Close waits for its reader goroutine: the scheduler only
 	// ever adds to it, Close only loads it.
@@ -101,6 +109,51 @@ type Stats struct {
 	Lost           int
 	AfterClose     int
 	DeliveryPanics int
+}
+
+// VerifSetHandlers implements res.VerifConn.
+func (c *Conn) VerifSetHandlers(reconnect, disconnect, closed func()) {
+	c.mu.Lock()
+	c.onReconnect, c.onDisconnect, c.onClosed = reconnect, disconnect, closed
+	c.mu.Unlock()
+}
+
+// dispatch runs a connection handler on a goroutine of its own; its first
+// act is a yield, so the scheduler decides when the callback runs.
+func (c *Conn) dispatch(kind string, f func()) {
+	if f == nil {
+		return
+	}
+	go func() {
+		c.yield("conn.callback", kind)
+		f()
+	}()
+}
+
+// Reconnected reports a disconnect followed by a reconnect to the service,
+// as nats.go does after it has restored the subscriptions.
+func (c *Conn) Reconnected() {
+	c.mu.Lock()
+	d, r := c.onDisconnect, c.onReconnect
+	if c.Closed {
+		d, r = nil, nil
+	} else {
+		c.AsyncCallbacks++
+	}
+	c.mu.Unlock()
+	if d == nil && r == nil {
+		return
+	}
+	// one dispatcher goroutine per connection: the callbacks run in order
+	go func() {
+		c.yield("conn.callback", "reconnect")
+		if d != nil {
+			d()
+		}
+		if r != nil {
+			r()
+		}
+	}()
 }
 
 // New creates a connection.
@@ -234,6 +287,10 @@ func (c *Conn) Close() {
 		return
 	}
 	c.Closed = true
+	if c.onClosed != nil {
+		c.AsyncCallbacks++
+		c.dispatch("closed", c.onClosed)
+	}
 	for _, d := range c.Inbound {
 		d.Dropped = "closed"
 		c.Delivered = append(c.Delivered, d)
